@@ -35,6 +35,7 @@ pub enum Pl {
     SelfWhole,                 // *self of a MutVal self
     SelfRaw,                   // self.0 of NodeStamp
     SelfField(String),         // self.<f> of a MutVal(Node) self
+    SelfTup(usize),            // component of a pair-shaped self (iterator states)
     ArenaField(&'static str),  // first_free_slot / last_free_slot
     Slot(String),              // the node stored at (nat) index
     SlotField(String, String), // .<field> of that node
@@ -96,6 +97,8 @@ pub fn ty_of(t: &Type) -> Ty {
         "Node<T>" => Ty::Node,
         "Option<&Node<T>>" | "Option<&mutNode<T>>" => Ty::opt(Ty::Node),
         "Vec<NodeId>" => Ty::ListNid,
+        "DeSt" => Ty::DeSt,
+        "IterSt" => Ty::IterSt,
         _ => Ty::Unknown,
     }
 }
@@ -122,6 +125,7 @@ impl Cx {
                 match self.lookup(&name) {
                     Some(Bnd::Slot { idx }) => Ok(Some(Pl::Slot(idx.clone()))),
                     Some(Bnd::Val { .. }) => Ok(Some(Pl::Local(name))),
+                    Some(Bnd::Fun { .. }) => Ok(None),
                     None => Ok(None),
                 }
             }
@@ -130,7 +134,7 @@ impl Cx {
                 // arena[id] | self[id] | self.nodes[usize]
                 let base = ts(&ix.expr).replace(' ', "");
                 let (it, ity) = self.expr(&ix.index, pres)?;
-                let is_arena = base == "arena" || (base == "self" && self.cur.self_kind == SelfKind::Arena);
+                let is_arena = base == "arena" || base == "self.0.arena" || base == "self.arena" || (base == "self" && self.cur.self_kind == SelfKind::Arena);
                 if is_arena {
                     if ity != Ty::NodeId {
                         return Err(format!("arena[..] with index of type {:?}", ity));
@@ -151,6 +155,21 @@ impl Cx {
                     Member::Unnamed(i) => i.index.to_string(),
                 };
                 let base = ts(&f.base).replace(' ', "");
+                if base == "self.0" {
+                    match (&self.cur.self_kind, fname.as_str()) {
+                        (SelfKind::MutVal(Ty::IterSt), "node") => return Ok(Some(Pl::SelfWhole)),
+                        (SelfKind::MutVal(Ty::DeSt), "head") => return Ok(Some(Pl::SelfTup(0))),
+                        (SelfKind::MutVal(Ty::DeSt), "tail") => return Ok(Some(Pl::SelfTup(1))),
+                        _ => return Ok(None),
+                    }
+                }
+                if base == "self" {
+                    match (&self.cur.self_kind, fname.as_str()) {
+                        (SelfKind::MutVal(Ty::TravSt), "root") => return Ok(Some(Pl::SelfTup(0))),
+                        (SelfKind::MutVal(Ty::TravSt), "next") => return Ok(Some(Pl::SelfTup(1))),
+                        _ => {}
+                    }
+                }
                 if base == "self" {
                     match (&self.cur.self_kind, fname.as_str()) {
                         (SelfKind::MutVal(Ty::Stamp), "0") => return Ok(Some(Pl::SelfRaw)),
@@ -198,10 +217,19 @@ impl Cx {
                 _ => Err(format!("unbound {}", x)),
             },
             Pl::SelfWhole => match &self.cur.self_kind {
+                SelfKind::MutVal(Ty::IterSt) => Ok((self.self_var.clone(), Ty::opt(Ty::NodeId))),
                 SelfKind::MutVal(t) => Ok((self.self_var.clone(), t.clone())),
                 _ => Err("self is not a value".into()),
             },
             Pl::SelfRaw => Ok((self.self_var.clone(), Ty::I16)),
+            Pl::SelfTup(i) => {
+                let tys = match &self.cur.self_kind {
+                    SelfKind::MutVal(Ty::DeSt) => [Ty::opt(Ty::NodeId), Ty::opt(Ty::NodeId)],
+                    SelfKind::MutVal(Ty::TravSt) | SelfKind::Val(Ty::TravSt) => [Ty::NodeId, Ty::opt(Ty::Edge)],
+                    _ => return Err("pair component of a non-pair self".into()),
+                };
+                Ok((format!("{} {}", if *i == 0 { "fst" } else { "snd" }, paren(&self.self_var)), tys[*i].clone()))
+            }
             Pl::SelfField(f) => {
                 let s = self.self_var.clone();
                 self.node_field_read(&s, f)
@@ -235,6 +263,13 @@ impl Cx {
             Pl::SelfWhole | Pl::SelfRaw => {
                 let n = self.gensym("v_self_");
                 pres.push(Pre::Let(n.clone(), v.to_string()));
+                self.self_var = n;
+                Ok(())
+            }
+            Pl::SelfTup(i) => {
+                let n = self.gensym("v_self_");
+                let t = if *i == 0 { format!("({}, snd {})", v, paren(&self.self_var)) } else { format!("(fst {}, {})", paren(&self.self_var), v) };
+                pres.push(Pre::Let(n.clone(), t));
                 self.self_var = n;
                 Ok(())
             }
